@@ -83,7 +83,7 @@ package server
 // an End-of-RIB marker is only made for a family the session negotiated (the callers hand in the configured list)
 //@ func (*BgpServer).getBestFromLocalCallbackLocked
 //@   claims at-call
-//@   at-call table.NewEOR(family) requires peer.IsFamilyEnabled(arg0)
+//@   at-call ^table.NewEOR(family) requires peer.IsFamilyEnabled(arg0)
 //@ func open2Cap
 // an OPEN without a Multiprotocol capability announces IPv4 unicast (RFC 4760 8): that default is in the peer's list
 // before ADD-PATH tuples and local families are matched against it - an ADD-PATH tuple for ipv4-unicast counts then too
